@@ -190,6 +190,42 @@ fn stmt_families(args: &Args, rng: &mut Rng, meta: &mut Meta) {
             rsink.push(g, desc, nontrivial, None, &[tag]);
         }
     }
+    // ---- compile, extended expression forms (binary operators, unary minus, ternary, ...): bodies
+    // whose expressions also use the forms Model/Compile.v ports beyond the language of family `ref`
+    // (World0 has no arithmetic, so these are compared as listings only). Generated after the shared
+    // stream so that the cases above are unchanged.
+    let n_ext = if thorough { 700 } else { 160 };
+    let mut ext_forms: std::collections::BTreeMap<&'static str, usize> = Default::default();
+    for k in 0..n_ext {
+        let depth = 1 + (k % 3) as u32;
+        let sc = stmt::Scope::top_ext(vec![], if k % 4 == 0 { 1 } else { 2 });
+        let b = stmt::body(rng, depth, &sc);
+        let src = stmt::body_src(&b, rng);
+        let name = if k % 2 == 0 { "x.html" } else { "x.txt" };
+        let ls = match chunk_listings(name, &src, tera::Delimiters::default()) {
+            Ok(ls) => ls,
+            Err(e) => {
+                rejected += 1;
+                meta.oracle_fail(&format!("generated body rejected: {e}"), None, json!({"source": src}));
+                continue;
+            }
+        };
+        let Some(main) = ls.iter().find(|c| c.id == "main") else { continue };
+        let mut forms = std::collections::BTreeSet::new();
+        for s in &b {
+            s.forms(&mut forms);
+        }
+        for f in &forms {
+            *ext_forms.entry(f).or_default() += 1;
+        }
+        let g = format!("{{| cc_body := {}; cc_impl := {} |}}", stmt::body_gal(&b), gal_code(&main.before));
+        let jumps = main.before.iter().filter(|(i, _)| matches!(i.op, "Jump" | "PopJumpIfFalse" | "Iterate" | "JumpIfFalseOrPop" | "JumpIfTrueOrPop")).count();
+        let desc = json!({"source": src, "instructions": main.before.len(), "jumps": jumps, "forms": forms});
+        let mut tags: Vec<&str> = vec![if jumps >= 2 { "jumps>=2" } else { "jumps<2" }, if forms.is_empty() { "ext:none" } else { "ext" }];
+        tags.extend(forms.iter().copied());
+        csink.push(g, desc, jumps >= 2 && !forms.is_empty(), None, &tags);
+    }
+    meta.extra.insert("compile_ext_forms".into(), json!(ext_forms));
     meta.extra.insert("stmt_libraries_rejected".into(), json!(rejected));
     meta.extra.insert("stmt_features".into(), json!(features_seen));
     meta.families.push(csink.finish());
